@@ -9,7 +9,9 @@
 (*   op      "update" | "axfr" | "ixfr" (a zone transfer, too: RFC 1995)       *)
 (*   signed  the message ends with a TSIG record                               *)
 (*   keyName "k1" | "k2" (configured keys) | "kx" (not configured)             *)
-(*   macKey  the secret the MAC was computed with: "k1" | "k2" | "kbad"        *)
+(*   macKey  the secret the MAC was computed with: "k1" | "k2" | "kbad" |      *)
+(*           "kprefix" (the named key's secret cut at its first CR/LF octet --  *)
+(*           keys are binary, what a sloppy key-file reader would keep)         *)
 (*   alg     "cfg" (the algorithm configured for that key name) | "other"      *)
 (*   macLen  "full" | "trunc" (a proper prefix of the genuine MAC)             *)
 (*   dt      TSIG time minus the server clock, in seconds                      *)
@@ -65,6 +67,10 @@ Honoured(r, p) ==
 
 \* C13_EffectOnlyIfValid / C13_Unchanged
 C13_EffectOk(r, p, effect) == effect => MayEffect(r, p)
+\* ... and the other direction where nothing is open: a server that holds the key honours the key
+\* holder's authentic, timely, untampered request (otherwise "requires a valid TSIG" would be met by
+\* refusing everybody -- or by holding a different key than the one configured)
+C13_HonouredOk(r, p, effect) == Honoured(r, p) => effect
 
 (* Reply obligations for an authentic request that took effect: the reply      *)
 (* carries a TSIG the client-side verifier accepts, and no modified copy of    *)
